@@ -190,6 +190,21 @@ fn do_case(out: &mut Out, line: &str) {
 					16 => tup!(0,1,2,3,4,5,6,7,8,9,10,11,12,13,14,15),
 					_ => elems.clone().to_rpc_params(),
 				}),
+				("array", match n {
+					1 => [elems[0].clone()].to_rpc_params(),
+					2 => [elems[0].clone(), elems[1].clone()].to_rpc_params(),
+					3 => [elems[0].clone(), elems[1].clone(), elems[2].clone()].to_rpc_params(),
+					4 => [elems[0].clone(), elems[1].clone(), elems[2].clone(), elems[3].clone()].to_rpc_params(),
+					5 => [elems[0].clone(), elems[1].clone(), elems[2].clone(), elems[3].clone(), elems[4].clone()].to_rpc_params(),
+					_ => elems.clone().to_rpc_params(),
+				}),
+				("rpc_params!", match n {
+					1 => jsonrpsee_core::rpc_params![&elems[0]].to_rpc_params(),
+					2 => jsonrpsee_core::rpc_params![&elems[0], &elems[1]].to_rpc_params(),
+					3 => jsonrpsee_core::rpc_params![&elems[0], &elems[1], &elems[2]].to_rpc_params(),
+					4 => jsonrpsee_core::rpc_params![&elems[0], &elems[1], &elems[2], &elems[3]].to_rpc_params(),
+					_ => elems.clone().to_rpc_params(),
+				}),
 				("macro", {
 					// rpc_params! expands to ArrayParams inserts
 					let mut p = ArrayParams::new();
@@ -233,6 +248,89 @@ fn do_case(out: &mut Out, line: &str) {
 				_ => Err("batch builder lost or reordered entries".into()),
 			};
 			out.line(line.into(), o, orc, n > 0);
+		}
+		"map" => {
+			// map <keyhex>=<valuehex> …: `serde_json::Map<String, Value>` as params (by name); model-independent check
+			let kvs: Vec<(String, String)> = w[1..].iter().map(|s| { let (k, v) = s.split_once('=').unwrap(); (String::from_utf8(unhex(k)).unwrap(), String::from_utf8(unhex(v)).unwrap()) }).collect();
+			let mut m = serde_json::Map::new();
+			let mut ok = true;
+			for (k, v) in &kvs {
+				match serde_json::from_str::<serde_json::Value>(v) {
+					Ok(val) => { m.insert(k.clone(), val); }
+					Err(_) => ok = false, // out-of-range number: cannot be held by a Value
+				}
+			}
+			if !ok {
+				out.line(line.into(), "#skip unrepresentable".into(), Ok(()), false);
+				return;
+			}
+			let r = std::panic::catch_unwind(std::panic::AssertUnwindSafe(|| m.clone().to_rpc_params()));
+			let orc = match &r {
+				Ok(Ok(Some(t))) => match serde_json::from_str::<serde_json::Value>(t.get()) {
+					Ok(serde_json::Value::Object(back)) if back == m => Ok(()),
+					other => Err(format!("map params `{}` parse back to {other:?}, inserted {m:?}", t.get())),
+				},
+				Ok(Ok(None)) => Err("map produced no params".into()),
+				Ok(Err(e)) => Err(format!("map params failed: {e}")),
+				Err(_) => Err("to_rpc_params panicked".into()),
+			};
+			out.count("map");
+			out.line(line.into(), "#skip map".into(), orc, true);
+		}
+		"batchb2" => {
+			// batchb2 <seed>: a batch builder filled with every kind of params (array / object builder, tuple,
+			// vec, slice, none) and, now and then, a value that fails to serialise: the failed insert reports an
+			// error and the entries built so far (and later ones) are exactly the successful ones, in order
+			let mut rng = Rng::new(w[1].parse().unwrap());
+			let n = rng.range(0, 7);
+			let mut b = BatchRequestBuilder::new();
+			let mut expect: Vec<(String, Option<String>)> = vec![];
+			let mut orc = Ok(());
+			for i in 0..n {
+				let method: &'static str = ["m0", "m1", "m2", "rpc.m3"][rng.below(4) as usize];
+				let a = rng.below(100);
+				let c = gen_str_content(&mut rng);
+				let (res, exp): (Result<(), serde_json::Error>, Option<String>) = match rng.below(7) {
+					0 => (b.insert(method, jsonrpsee_core::rpc_params![]), None),
+					1 => (b.insert(method, jsonrpsee_core::rpc_params![a, &c]), Some(format!("[{a},{}]", serde_json::to_string(&c).unwrap()))),
+					2 => (b.insert(method, (a, c.clone())), Some(format!("[{a},{}]", serde_json::to_string(&c).unwrap()))),
+					3 => (b.insert(method, vec![a, i]), Some(format!("[{a},{i}]"))),
+					4 => {
+						let mut o = ObjectParams::new();
+						o.insert("a", a).unwrap();
+						o.insert(&c, i).unwrap();
+						(b.insert(method, o), Some(format!("{{\"a\":{a},{}:{i}}}", serde_json::to_string(&c).unwrap())))
+					}
+					5 => (b.insert(method, &[a][..]), Some(format!("[{a}]"))),
+					_ => {
+						let f = FailAfter { elems: vec![RawValue::from_string("1".into()).unwrap()], as_map: false };
+						let r = b.insert(method, (f,));
+						if r.is_ok() {
+							orc = Err("inserting params that fail to serialise reported success".to_string());
+						}
+						continue;
+					}
+				};
+				if let Err(e) = res {
+					orc = Err(format!("insert of serialisable params failed: {e}"));
+				}
+				expect.push((method.to_string(), exp));
+			}
+			let got: Vec<(String, Option<String>)> = b.iter().map(|(m, p)| (m.to_string(), p.as_ref().map(|p| p.get().to_string()))).collect();
+			let built = b.build();
+			if orc.is_ok() {
+				if got != expect {
+					orc = Err(format!("batch builder holds {got:?}, inserted {expect:?}"));
+				} else {
+					match &built {
+						Ok(v) if !expect.is_empty() && v.len() == expect.len() => {}
+						Err(_) if expect.is_empty() => {}
+						_ => orc = Err("build() disagrees with the entries held".into()),
+					}
+				}
+			}
+			out.count("batchb2");
+			out.line(line.into(), "#skip batchb2".into(), orc, n > 0);
 		}
 		_ => panic!("verb {line}"),
 	}
@@ -321,7 +419,15 @@ fn gen_lines(rng: &mut Rng, n: u64, lines: &mut Vec<String>) {
 				let es: Vec<String> = (0..k).map(|_| hexs(&gen_value(rng))).collect();
 				lines.push(format!("tuple {}", es.join(" ")));
 			}
-			_ => lines.push(format!("batchb {}", rng.below(6))),
+			_ => match rng.below(3) {
+				0 => lines.push(format!("batchb {}", rng.below(6))),
+				1 => lines.push(format!("batchb2 {}", rng.next() >> 1)),
+				_ => {
+					let k = rng.range(0, 6);
+					let kv: Vec<String> = (0..k).map(|_| { let name = if rng.chance(1, 3) { gen_str_content(rng) } else { format!("p{}", rng.below(4)) }; format!("{}={}", hexs(&name), hexs(&gen_value(rng))) }).collect();
+					lines.push(format!("map {}", kv.join(" ")).trim_end().to_string());
+				}
+			},
 		}
 	}
 }
